@@ -37,6 +37,8 @@ type History struct {
 	// StallIdle: at watchdog expiry no Do was in flight and the last Do had returned > 5 s earlier
 	StallIdle bool
 	Refused   int
+	// Calls: every IInsertServiceV2.Request the writer made, with the tick at which its promise was fulfilled
+	Calls []SvcCall
 }
 
 var itemSeq int64
@@ -320,6 +322,44 @@ func RunWorkload(seed int64, cfg WorkCfg, onPhase func(string)) *History {
 			f.Close()
 		}
 	}
+	if cfg.Targeted {
+		// twins: two or three clients push, at the same moment, different entries of one stream nobody has pushed
+		// before (a deployment starting several replicas of an agent). Which of them derives the stream's series row
+		// depends on who reaches the series cache first, so the series row is judged at the service boundary only
+		// (History.Calls), not per request. Healthy database, every series INSERT failing, the first one failing.
+		r := rand.New(rand.NewSource(int64(h64(fmt.Sprintf("%d/%s/twins", seed, cfg.Stream)) >> 1)))
+		for round, dbMode := range []string{"ok", "fail-table", "fail-n", "fail-table", "ok"} {
+			if onPhase != nil {
+				onPhase("twins:" + dbMode)
+			}
+			id := fmt.Sprintf("tw%d", atomic.AddInt64(&itemSeq, 1))
+			proto := []string{"loki-json-values", "loki-proto", "loki-json-entries"}[r.Intn(3)]
+			base := gen.NewLogCase(r, gen.LogOpts{ID: id, Proto: proto, Streams: 1, MaxEntries: 4, BaseNs: int64(1700000000)*1e9 + int64(round)*86400e9})
+			n := 2 + r.Intn(3)
+			its := make([]*Item, n)
+			for k := range its {
+				lc := gen.LogCase{Streams: []gen.Stream{{SID: base.Streams[0].SID, Labels: base.Streams[0].Labels}}}
+				for _, e := range base.Streams[0].Entries {
+					e.TsNs += int64(k+1) * 1000000
+					if e.HasLine {
+						e.Line += fmt.Sprintf("~%d", k)
+					}
+					lc.Streams[0].Entries = append(lc.Streams[0].Entries, e)
+				}
+				its[k] = &Item{Phase: "twins:" + dbMode, Kind: "logs", Req: gen.Render(r, proto, lc), Single: true}
+			}
+			failTable.Store("time_series")
+			atomic.StoreInt32(&failLeft, 1)
+			mode.Store(dbMode)
+			var wg sync.WaitGroup
+			for k := range its {
+				wg.Add(1)
+				go func(k int) { defer wg.Done(); send(k, its[k]) }(k)
+			}
+			wg.Wait()
+			mode.Store("ok")
+		}
+	}
 	if cfg.Refuse {
 		if onPhase != nil {
 			onPhase("refuse")
@@ -342,6 +382,7 @@ func RunWorkload(seed int64, cfg WorkCfg, onPhase func(string)) *History {
 	}
 	led.AllOK.Store(true)
 	h.Blocks = led.Snapshot()
+	h.Calls = w.SvcCalls()
 	h.Refused = led.Refused
 	for _, it := range h.Items {
 		if it.Rec == nil || it.Rec.Status == 0 {
